@@ -1232,6 +1232,25 @@ func (e *Env) evalCall(n SCall) Val {
 			}
 			gh := x.heapGet(e.st, "GH_hashed", "(Array Int String)")
 			return Val{T: Select(gh, Term{fmt.Sprintf("(ival %s)", h.T.S), "Int"}), Typ: types.Typ[types.String]}
+		case "built":
+			// built(b): the text written so far to the strings.Builder held in the local or captured variable b
+			id, ok := n.Args[0].(SIdent)
+			if !ok {
+				return e.fail("built() needs the name of a strings.Builder variable")
+			}
+			var cell *Cell
+			if c, ok := x.fvCells[id.Name]; ok {
+				cell = c
+			} else if v, ok := e.localByName(id.Name); ok && v.Src != nil && v.Src.Kind == LCell {
+				cell = v.Src.Cell
+			}
+			if cell == nil {
+				return e.fail("built(%s): not a builder variable of this function", id.Name)
+			}
+			if t, ok := e.st.ghost[fmt.Sprintf("sb:%d", cell.id)]; ok {
+				return Val{T: t, Typ: types.Typ[types.String]}
+			}
+			return Val{T: StrLit(""), Typ: types.Typ[types.String]}
 		case "jsonDoc":
 			// jsonDoc(data): the bytes are exactly one well-formed JSON document (what json.Unmarshal accepts)
 			v := e.eval(n.Args[0])
